@@ -8,7 +8,7 @@ class Check(EngineCheck):
     prop = "C01"
     module = "LLBuild.Props.C01"
     theorems = [E + "C01_value", E + "C01_inputs", E + "C01_up_to_date_is_clean", E + "C01_value_dsl",
-                E + "DSL.program_WF", E + "step_inv", E + "reach_inv", E + "engine_fingerprint_matches_model"]
+                E + "DSL.program_WF", E + "step_inv", E + "reach_inv", E + "C01_value_unique", E + "Clean_unique", E + "DSL.program_Det", E + "engine_fingerprint_matches_model"]
     mix = [(0.55, {}), (0.2, {"threads": True}), (0.25, {"cancel": True})]
     budget = (300, 3000)
 
